@@ -231,6 +231,18 @@ theorem revert_restores_root_counterexample_clobber :
     content s = [(A1, ⟨0, [([0x6b], [2])], emptyCodeHash⟩)] := by
   decide
 
+/-- state in which the balance slot of `A1` holds 5 as a 32-byte word (as the EVM writes it) -/
+def sPadded : ADB := setNonce (setData ADB.empty c0.tok (c0.balKey A1) (toHash [5])) A1 1
+
+/-- `suicide-undo-rewrites-balance-slot`: found while proving the undo-inverse lemma for `Suicide`, then
+    replayed on the implementation: the slot comes back as `[5]`, `GetBalance` is unchanged -/
+theorem suicide_undo_rewrites_slot_counterexample :
+    let r := revert c0 (suicide c0 (snapshot sPadded).1 A1).1 (snapshot sPadded).2
+    (obs c0 r c0.tok (c0.balKey A1) [] []).slot = [5] ∧
+    (obs c0 sPadded c0.tok (c0.balKey A1) [] []).slot = toHash [5] ∧
+    (obs c0 r A1 [] [] []).balance = (obs c0 sPadded A1 [] [] []).balance := by
+  decide
+
 /-! ## revision stack -/
 
 /-- a snapshot id is larger than every id on the stack and the stack stays sorted: ids are never reused -/
